@@ -44,7 +44,8 @@ def pf_snap(pf):
             [pos_snap(a, p) for a, p in pf.pos_handler.positions.items()],
             len(pf.history), [event_snap(pf.history[-1])] if pf.history else [],
             num(pf.total_market_value), num(pf.total_equity),
-            num(pf.total_unrealised_pnl), num(pf.total_realised_pnl), num(pf.total_pnl)]
+            num(pf.total_unrealised_pnl), num(pf.total_realised_pnl), num(pf.total_pnl),
+            hash(tuple(repr(e) for e in pf.history)) & 0xffffffff]
 
 
 def run_broker(c):
@@ -67,8 +68,15 @@ def run_broker(c):
     oid = {}
     nxt = [0]
     Portfolio.transact_asset = spy
+    def bsnap():
+        return [sec(broker.current_dt), num(broker.cash_balances[broker.base_currency]),
+                [[pid, pf_snap(pf),
+                  [[oid.get(o.order_id, -1), o.asset, num(o.quantity)] for o in list(broker.open_orders[pid].queue)]]
+                 for pid, pf in broker.portfolios.items()],
+                [[k, num(v)] for k, v in sorted(broker.cash_balances.items())]]
     try:
         steps = []
+        snap0 = bsnap()
         for op in c['ops']:
             del fills[:]
             k = op[0]
@@ -111,12 +119,9 @@ def run_broker(c):
                     res = ['ok', []]
                 else:
                     res = ['ok', [num(r)]]
-            except (ValueError, KeyError, AttributeError, TypeError, ZeroDivisionError) as e:
+            except Exception as e:
                 res = errname(e)
-            snap = [sec(broker.current_dt), num(broker.cash_balances[broker.base_currency]),
-                    [[pid, pf_snap(pf),
-                      [[oid.get(o.order_id, -1), o.asset, num(o.quantity)] for o in list(broker.open_orders[pid].queue)]]
-                     for pid, pf in broker.portfolios.items()]]
+            snap = bsnap()
             # public getter view (what C01/C02 name as observables)
             pub = []
             for pid in broker.portfolios:
@@ -139,7 +144,7 @@ def run_broker(c):
                 dfrows.append([pid, len(df)])
             except Exception as e:
                 dfrows.append([pid, errname(e)])
-        return {'init': ['ok'], 'steps': steps, 'hist': hist, 'dfrows': dfrows}
+        return {'init': ['ok'], 'snap0': snap0, 'steps': steps, 'hist': hist, 'dfrows': dfrows}
     finally:
         Portfolio.transact_asset = orig
 
@@ -147,6 +152,7 @@ def run_broker(c):
 def run_portfolio(c):
     pf = Portfolio(ts(c['start']), starting_cash=c['cash'], portfolio_id='p')
     steps = []
+    snap0 = pf_snap(pf)
     for op in c['ops']:
         k = op[0]
         try:
@@ -159,13 +165,13 @@ def run_portfolio(c):
             elif k == 'mark':
                 pf.update_market_value_of_asset(op[1], op[2], ts(op[3]))
             res = ['ok', []]
-        except (ValueError, KeyError, AttributeError, TypeError, ZeroDivisionError) as e:
+        except Exception as e:
             res = errname(e)
         d = pf.portfolio_to_dict()
         steps.append({'res': res, 'snap': pf_snap(pf),
                       'pub': [[a, num(v['quantity']), num(v['market_value']), num(v['unrealised_pnl']),
                                num(v['realised_pnl']), num(v['total_pnl'])] for a, v in d.items()]})
-    return {'steps': steps, 'hist': [event_snap(e) for e in pf.history]}
+    return {'snap0': snap0, 'steps': steps, 'hist': [event_snap(e) for e in pf.history]}
 
 
 def handler(c):
